@@ -2,6 +2,7 @@ import Driver.Common
 import Driver.MerkleArea
 import Driver.ComposerArea
 import Driver.CoreArea
+import Driver.QuorumArea
 /- `astria-driver <trace-file>`: replays an implementation trace through the Lean model of
    the area named by the first token of the first line; prints DISAGREE / MONITOR / STAT. -/
 def main (args : List String) : IO UInt32 := do
@@ -17,6 +18,7 @@ def main (args : List String) : IO UInt32 := do
       | "merkle" => pure (Driver.MerkleArea.run lines)
       | "composer" => pure (Driver.ComposerArea.run lines)
       | "core" => pure (Driver.CoreArea.run lines)
+      | "quorum" => pure (Driver.QuorumArea.run lines)
       | _ => do IO.println s!"unknown area {area}"; return 2
     rep.print
     return 0
